@@ -524,3 +524,433 @@ Proof.
   apply (same_set_iff ia_eqb ia_eqb_eq). unfold beacon_sources.
   destruct (dedup_ia_spec (map be_start db)) as [A B]. split; [exact A|exact B].
 Qed.
+
+(** ** every result of the model is what the property prescribes *)
+Lemma list_eqb_refl {A} (eqb : A -> A -> bool) (R : forall x, eqb x x = true) l :
+  list_eqb eqb l l = true.
+Proof. induction l as [|x t IH]; cbn; [reflexivity|now rewrite R, IH]. Qed.
+
+Lemma brow_eqb_refl x : brow_eqb x x = true.
+Proof. now apply brow_eqb_eq. Qed.
+
+Lemma bres_ok_model tick db o : bwf db -> bres_ok tick db o (snd (bstep tick db o)) = true.
+Proof.
+  intros W. destruct o as [b u|p|now|n u src| |ord p]; cbn [bstep].
+  - unfold insert_beacon. destruct (kfind be_id (b_id b) db) as [e|] eqn:F.
+    + destruct (be_ver e <? b_ver b) eqn:C; cbn [fst snd bres_ok]; now rewrite F, ?C.
+    + cbn [fst snd bres_ok]. now rewrite F.
+  - reflexivity.
+  - cbn [delete_expired_beacons fst snd bres_ok]. apply N.eqb_refl.
+  - cbn [snd bres_ok]. now apply cands_ok_model.
+  - cbn [snd bres_ok]. apply sources_same_set.
+  - cbn [snd bres_ok]. destruct (get_beacons_spec p db) as [_ S].
+    rewrite (desc_lu_true _ S), orb_true_r. cbn [andb]. now apply get_rows_same_set.
+Qed.
+
+Lemma bres_agree_model tick db o :
+  bwf db -> bres_agree db o (snd (bstep tick db o)) (snd (bstep tick db o)) = true.
+Proof.
+  intros W. destruct o as [b u|p|now|n u src| |ord p]; cbn [bstep].
+  - destruct (insert_beacon tick b u db) as [db' st]. cbn [snd bres_agree]. now rewrite !N.eqb_refl.
+  - reflexivity.
+  - cbn [delete_expired_beacons fst snd bres_agree]. apply N.eqb_refl.
+  - cbn [snd bres_agree]. rewrite (list_eqb_refl N.eqb N.eqb_refl). now apply cands_ok_model.
+  - cbn [snd bres_agree]. apply (same_set_refl ia_eqb ia_eqb_eq). apply dedup_ia_spec.
+  - cbn [snd bres_agree]. destruct ord.
+    + apply (list_eqb_refl brow_eqb brow_eqb_refl).
+    + apply (same_set_refl brow_eqb brow_eqb_eq). apply brow_of_id_inj.
+      destruct (get_beacons_spec p db) as [P _].
+      apply (Permutation_NoDup (Permutation_map be_id (Permutation_sym P))).
+      now apply nodup_map_filter.
+Qed.
+
+(** chronological results of a history *)
+Fixpoint btrace (tick : N) (db : beacon_db) (ops : list bop) : list bres :=
+  match ops with
+  | [] => []
+  | o :: t => snd (bstep tick db o) :: btrace (tick + 1) (fst (bstep tick db o)) t
+  end.
+
+Lemma brun_from_trace ops : forall tick db rs,
+  snd (brun_from (tick, db, rs) ops) = rev (btrace tick db ops) ++ rs.
+Proof.
+  unfold brun_from. induction ops as [|o t IH]; intros tick db rs; cbn [fold_left btrace]; [reflexivity|].
+  unfold bexec at 2. destruct (bstep tick db o) as [db' r] eqn:E. cbn [fst snd].
+  rewrite IH. cbn [rev]. now rewrite <- app_assoc.
+Qed.
+
+Lemma bresults_trace ops : bresults ops = btrace 0 [] ops.
+Proof.
+  unfold bresults, brun. rewrite brun_from_trace, app_nil_r. apply rev_involutive.
+Qed.
+
+Lemma bhist_model ops : forall tick db,
+  bwf db ->
+  bhist_ok tick db ops (btrace tick db ops) = true /\
+  bhist_agree tick db ops (btrace tick db ops) = true.
+Proof.
+  induction ops as [|o t IH]; intros tick db W; cbn [bhist_ok bhist_agree btrace]; [auto|].
+  pose proof (bres_ok_model tick db o W) as A. pose proof (bres_agree_model tick db o W) as B.
+  pose proof (bstep_wf tick db o W) as W'.
+  destruct (bstep tick db o) as [db' r]. cbn [fst snd] in *.
+  destruct (IH (tick + 1) db' W') as [I1 I2]. now rewrite A, B, I1, I2.
+Qed.
+
+(** * Path-segment store *)
+
+(** ** sets of numbers *)
+Lemma add_n_in x l y : In y (add_n x l) <-> y = x \/ In y l.
+Proof.
+  induction l as [|z t IH]; cbn; [intuition|].
+  destruct (x <? z); cbn; [intuition|]. destruct (x =? z) eqn:E; cbn.
+  - apply N.eqb_eq in E. subst. intuition.
+  - rewrite IH. intuition.
+Qed.
+
+Lemma add_n_sorted x l : StronglySorted N.lt l -> StronglySorted N.lt (add_n x l).
+Proof.
+  induction l as [|z t IH]; cbn; intros S; [repeat constructor|].
+  inversion S as [|? ? S' F]; subst. destruct (x <? z) eqn:C.
+  - apply N.ltb_lt in C. constructor; [exact S|]. constructor; [exact C|].
+    rewrite Forall_forall in *. intros y Hy. specialize (F y Hy). lia.
+  - destruct (x =? z) eqn:E; [exact S|]. apply N.ltb_ge in C. apply N.eqb_neq in E.
+    constructor; [now apply IH|]. rewrite Forall_forall in *. intros y Hy.
+    apply add_n_in in Hy as [->|Hy]; [lia|now apply F].
+Qed.
+
+Lemma sorted_lt_nodup l : StronglySorted N.lt l -> NoDup l.
+Proof.
+  induction 1 as [|x t S IH F]; constructor; [|exact IH].
+  intros H. rewrite Forall_forall in F. specialize (F x H). lia.
+Qed.
+
+Lemma union_n_spec xs : forall l,
+  (StronglySorted N.lt l -> StronglySorted N.lt (union_n xs l)) /\
+  (forall y, In y (union_n xs l) <-> In y xs \/ In y l).
+Proof.
+  unfold union_n. induction xs as [|x t IH]; intros l; cbn [fold_left].
+  { split; [auto|]. intros y. cbn. tauto. }
+  destruct (IH (add_n x l)) as [A B]. split.
+  - intros S. apply A. now apply add_n_sorted.
+  - intros y. rewrite B, add_n_in. cbn. intuition.
+Qed.
+
+Definition pgood (e : pentry) : Prop :=
+  StronglySorted N.lt (pe_types e) /\ StronglySorted N.lt (pe_groups e).
+Definition pwf (db : seg_db) : Prop := NoDup (map pe_id db) /\ Forall pgood db.
+
+Lemma insert_seg_find tick s ty gs db id :
+  kfind pe_id id (fst (insert_seg tick s ty gs db)) =
+  if id_eqb (s_id s) id then
+    match kfind pe_id (s_id s) db with
+    | None => Some (pnew tick s ty gs)
+    | Some e => if pe_ver e <? s_ver s then Some (pupd tick s ty gs e) else Some e
+    end
+  else kfind pe_id id db.
+Proof.
+  unfold insert_seg. destruct (kfind pe_id (s_id s) db) as [e|] eqn:F.
+  - pose proof (kfind_some pe_id _ _ _ F) as [_ Ke].
+    destruct (pe_ver e <? s_ver s); cbn [fst].
+    + rewrite kfind_kreplace. cbn [pupd pe_id]. rewrite Ke.
+      destruct (id_eqb (s_id s) id) eqn:K; [|reflexivity].
+      apply id_eqb_eq in K. subst id. now rewrite F.
+    + destruct (id_eqb (s_id s) id) eqn:K; [|reflexivity].
+      apply id_eqb_eq in K. now subst id.
+  - cbn [fst]. rewrite kfind_app. cbn [pnew pe_id].
+    destruct (id_eqb (s_id s) id) eqn:K.
+    + apply id_eqb_eq in K. subst id. now rewrite F.
+    + now destruct (kfind pe_id id db).
+Qed.
+
+Lemma in_kreplace {E} (key : E -> segid) e' l x :
+  In x (kreplace key e' l) -> x = e' \/ In x l.
+Proof.
+  induction l as [|y t IH]; cbn; [tauto|]. destruct (id_eqb (key y) (key e')); cbn; intuition.
+Qed.
+
+Lemma pnew_good tick s ty gs : pgood (pnew tick s ty gs).
+Proof.
+  split; cbn [pnew pe_types pe_groups]; [repeat constructor|].
+  apply union_n_spec. constructor.
+Qed.
+
+Lemma pupd_good tick s ty gs e : pgood e -> pgood (pupd tick s ty gs e).
+Proof.
+  intros [A B]. split; cbn [pupd pe_types pe_groups]; [now apply add_n_sorted|].
+  now apply union_n_spec.
+Qed.
+
+Lemma insert_seg_wf tick s ty gs db : pwf db -> pwf (fst (insert_seg tick s ty gs db)).
+Proof.
+  intros [W G]. unfold insert_seg. destruct (kfind pe_id (s_id s) db) as [e|] eqn:F.
+  - destruct (pe_ver e <? s_ver s); cbn [fst]; [|now split]. split.
+    + now rewrite map_key_kreplace.
+    + rewrite Forall_forall in *. intros x Hx. apply in_kreplace in Hx as [->|Hx]; [|now apply G].
+      apply pupd_good. apply G. now apply (kfind_some pe_id _ _ _ F).
+  - cbn [fst]. split; [now apply nodup_key_app|].
+    apply Forall_app. split; [exact G|]. constructor; [apply pnew_good|constructor].
+Qed.
+
+Lemma forall_filter {X} (P : X -> Prop) f l : Forall P l -> Forall P (filter f l).
+Proof.
+  rewrite !Forall_forall. intros H x Hx. apply filter_In in Hx. now apply H.
+Qed.
+
+Lemma pstep_segs_insert tick st s ty gs :
+  segs (fst (pstep tick st (PInsert s ty gs))) = fst (insert_seg tick s ty gs (segs st)).
+Proof. cbn. now destruct (insert_seg tick s ty gs (segs st)). Qed.
+
+Lemma pstep_wf tick st o : pwf (segs st) -> pwf (segs (fst (pstep tick st o))).
+Proof.
+  intros W. destruct o as [s ty gs|p|now|p|src dst t|src dst].
+  - rewrite pstep_segs_insert. now apply insert_seg_wf.
+  - cbn. destruct W as [W G]. split; [now apply nodup_key_filter|now apply forall_filter].
+  - cbn. destruct W as [W G]. split; [now apply nodup_key_filter|now apply forall_filter].
+  - exact W.
+  - cbn. now destruct (insert_nq src dst t (nqs st)).
+  - exact W.
+Qed.
+
+(** version never decreases; types and groups only accumulate *)
+Lemma pstep_version_mono tick st o id e e' :
+  pwf (segs st) -> kfind pe_id id (segs st) = Some e ->
+  kfind pe_id id (segs (fst (pstep tick st o))) = Some e' ->
+  pe_ver e <= pe_ver e' /\ (pe_ver e = pe_ver e' -> e' = e) /\
+  incl (pe_types e) (pe_types e') /\ incl (pe_groups e) (pe_groups e').
+Proof.
+  intros [W _] F F'.
+  assert (Same : Some e = Some e' ->
+    pe_ver e <= pe_ver e' /\ (pe_ver e = pe_ver e' -> e' = e) /\
+    incl (pe_types e) (pe_types e') /\ incl (pe_groups e) (pe_groups e')).
+  { intros H; inversion H; subst. repeat split; try lia; try apply incl_refl. }
+  destruct o as [s ty gs|p|now|p|src dst t|src dst].
+  - rewrite pstep_segs_insert, insert_seg_find in F'.
+    destruct (id_eqb (s_id s) id) eqn:K; [|rewrite F in F'; now apply Same].
+    apply id_eqb_eq in K. subst id. rewrite F in F'.
+    destruct (pe_ver e <? s_ver s) eqn:C; [|now apply Same].
+    inversion F'; subst. apply N.ltb_lt in C. cbn [pupd pe_ver pe_types pe_groups].
+    repeat split; try lia.
+    + intros y Hy. apply add_n_in. now right.
+    + intros y Hy. apply union_n_spec. now right.
+  - cbn [pstep fst segs] in F'. unfold delete_segment in F'.
+    rewrite kfind_filter in F' by exact W. rewrite F in F'.
+    destruct (negb (prefix_b p (pe_id e))); [now apply Same|discriminate].
+  - cbn [pstep delete_expired_segs fst segs] in F'.
+    rewrite kfind_filter in F' by exact W. rewrite F in F'.
+    destruct (negb (pe_exp e <? now)); [now apply Same|discriminate].
+  - cbn in F'. rewrite F in F'. now apply Same.
+  - cbn [pstep] in F'. destruct (insert_nq src dst t (nqs st)). cbn in F'. rewrite F in F'. now apply Same.
+  - cbn in F'. rewrite F in F'. now apply Same.
+Qed.
+
+(** ** Get *)
+Lemma get_segs_in p db row :
+  In row (get_segs p db) <->
+  exists e t, In e db /\ pmatch p e = true /\ sel (g_groups p) (pe_groups e) <> [] /\
+              In t (sel (g_types p) (pe_types e)) /\
+              row = (pe_id e, pe_pay e, t, sel (g_groups p) (pe_groups e), pe_lu e).
+Proof.
+  unfold get_segs. rewrite in_flat_map. split.
+  - intros [e [He Hr]]. unfold rows_of in Hr. destruct (pmatch p e) eqn:M; [|destruct Hr].
+    destruct (sel (g_groups p) (pe_groups e)) as [|g gs] eqn:G; [destruct Hr|].
+    apply in_map_iff in Hr as [t [<- Ht]]. exists e, t.
+    split; [exact He|]. split; [exact M|]. split; [rewrite G; discriminate|].
+    split; [exact Ht|]. now rewrite G.
+  - intros [e [t [He [M [G [Ht ->]]]]]]. exists e. split; [exact He|]. unfold rows_of. rewrite M.
+    destruct (sel (g_groups p) (pe_groups e)) as [|g gs] eqn:G'; [congruence|].
+    apply in_map_iff. exists t. auto.
+Qed.
+
+Lemma nodup_app_intro {X} (a b : list X) :
+  NoDup a -> NoDup b -> (forall x, In x a -> ~ In x b) -> NoDup (a ++ b).
+Proof.
+  induction a as [|x t IH]; cbn; intros Na Nb D; [exact Nb|].
+  inversion Na as [|? ? Hn Na']; subst. constructor.
+  - intros H. apply in_app_or in H as [H|H]; [contradiction|]. apply (D x); [now left|exact H].
+  - apply IH; auto.
+Qed.
+
+Lemma sel_nodup want have : NoDup have -> NoDup (sel want have).
+Proof. unfold sel. destruct want; [auto|]. apply NoDup_filter. Qed.
+
+Lemma rows_of_nodup p e : pgood e -> NoDup (rows_of p e).
+Proof.
+  intros [T _]. unfold rows_of. destruct (pmatch p e); [|constructor].
+  destruct (sel (g_groups p) (pe_groups e)) as [|g gs]; [constructor|].
+  pose proof (sel_nodup (g_types p) _ (sorted_lt_nodup _ T)) as Nd.
+  induction Nd as [|t l Hn Nd IH]; cbn; constructor; [|exact IH].
+  intros H. apply in_map_iff in H as [t' [E Ht']]. inversion E; subst. contradiction.
+Qed.
+
+Lemma rows_of_id p e row : In row (rows_of p e) -> fst (fst (fst (fst row))) = pe_id e.
+Proof.
+  unfold rows_of. destruct (pmatch p e); [|intros []].
+  destruct (sel (g_groups p) (pe_groups e)); [intros []|].
+  intros H. apply in_map_iff in H as [t [<- _]]. reflexivity.
+Qed.
+
+Lemma get_segs_nodup p db : pwf db -> NoDup (get_segs p db).
+Proof.
+  intros [W G]. unfold get_segs. induction db as [|e t IH]; cbn; [constructor|].
+  inversion W as [|? ? Hn W']; subst. inversion G as [|? ? Ge G']; subst.
+  apply nodup_app_intro; [now apply rows_of_nodup|now apply IH|].
+  intros row H1 H2. apply rows_of_id in H1. apply in_flat_map in H2 as [e' [He' H2]].
+  apply rows_of_id in H2. apply Hn. apply in_map_iff. exists e'. split; [congruence|exact He'].
+Qed.
+
+(** ** NextQuery *)
+Lemma nq_find_set s d s' d' t l :
+  nq_find s d (nq_set s' d' t l) =
+  if ia_eqb s' s && ia_eqb d' d then Some t else nq_find s d l.
+Proof.
+  induction l as [|[[s0 d0] t0] r IH]; cbn.
+  - destruct (ia_eqb s' s && ia_eqb d' d) eqn:E; reflexivity.
+  - destruct (ia_eqb s0 s' && ia_eqb d0 d') eqn:M; cbn.
+    + apply andb_true_iff in M as [M1 M2]. apply ia_eqb_eq in M1, M2. subst s0 d0.
+      now destruct (ia_eqb s' s && ia_eqb d' d).
+    + destruct (ia_eqb s0 s && ia_eqb d0 d) eqn:M2; [|exact IH].
+      apply andb_true_iff in M2 as [A B]. apply ia_eqb_eq in A, B. subst s0 d0.
+      assert (X : ia_eqb s' s && ia_eqb d' d = false).
+      { destruct (ia_eqb s' s) eqn:A; [|reflexivity]. destruct (ia_eqb d' d) eqn:B; [|reflexivity].
+        apply ia_eqb_eq in A, B. subst. rewrite (proj2 (ia_eqb_eq s s) eq_refl) in M.
+        rewrite (proj2 (ia_eqb_eq d d) eq_refl) in M. discriminate. }
+      now rewrite X.
+Qed.
+
+(** the stored next-query time after InsertNextQuery is the maximum *)
+Definition omax (o : option N) (t : N) : option N :=
+  match o with None => Some t | Some v => Some (N.max v t) end.
+
+Lemma insert_nq_find src dst t l s d :
+  nq_find s d (fst (insert_nq src dst t l)) =
+  if ia_eqb src s && ia_eqb dst d then omax (nq_find src dst l) t else nq_find s d l.
+Proof.
+  unfold insert_nq. destruct (nq_find src dst l) as [t0|] eqn:F.
+  - destruct (t0 <? t) eqn:C; cbn [fst].
+    + rewrite nq_find_set. destruct (ia_eqb src s && ia_eqb dst d); [|reflexivity].
+      cbn. apply N.ltb_lt in C. f_equal. lia.
+    + destruct (ia_eqb src s && ia_eqb dst d) eqn:M; [|reflexivity].
+      apply andb_true_iff in M as [A B]. apply ia_eqb_eq in A, B. subst. rewrite F. cbn.
+      apply N.ltb_ge in C. f_equal. lia.
+  - cbn [fst]. rewrite nq_find_set. now destruct (ia_eqb src s && ia_eqb dst d).
+Qed.
+
+Lemma insert_nq_result src dst t l :
+  snd (insert_nq src dst t l) =
+  match nq_find src dst l with None => true | Some t0 => t0 <? t end.
+Proof.
+  unfold insert_nq. destruct (nq_find src dst l) as [t0|]; [|reflexivity]. now destruct (t0 <? t).
+Qed.
+
+(** ** every result of the model is what the property prescribes *)
+Lemma prow_eqb_refl x : prow_eqb x x = true.
+Proof. now apply prow_eqb_eq. Qed.
+
+Lemma pres_ok_model tick st o : pwf (segs st) -> pres_ok tick st o (snd (pstep tick st o)) = true.
+Proof.
+  intros W. destruct o as [s ty gs|p|now|p|src dst t|src dst]; cbn [pstep].
+  - unfold insert_seg. destruct (kfind pe_id (s_id s) (segs st)) as [e|] eqn:F.
+    + destruct (pe_ver e <? s_ver s) eqn:C; cbn [fst snd pres_ok]; now rewrite F, ?C.
+    + cbn [fst snd pres_ok]. now rewrite F.
+  - reflexivity.
+  - cbn [delete_expired_segs fst snd pres_ok]. apply N.eqb_refl.
+  - cbn [snd pres_ok]. apply (same_set_refl prow_eqb prow_eqb_eq). now apply get_segs_nodup.
+  - pose proof (insert_nq_result src dst t (nqs st)) as R.
+    destruct (insert_nq src dst t (nqs st)) as [l' b]. cbn [snd] in *. cbn [pres_ok]. subst b.
+    apply eqb_reflx.
+  - cbn [snd pres_ok]. destruct (nq_find src dst (nqs st)); cbn; [apply N.eqb_refl|reflexivity].
+Qed.
+
+Lemma pres_agree_model tick st o :
+  pwf (segs st) -> pres_agree (snd (pstep tick st o)) (snd (pstep tick st o)) = true.
+Proof.
+  intros W. destruct o as [s ty gs|p|now|p|src dst t|src dst]; cbn [pstep].
+  - destruct (insert_seg tick s ty gs (segs st)). cbn [snd pres_agree]. now rewrite !N.eqb_refl.
+  - reflexivity.
+  - cbn [delete_expired_segs fst snd pres_agree]. apply N.eqb_refl.
+  - cbn [snd pres_agree]. apply (same_set_refl prow_eqb prow_eqb_eq). now apply get_segs_nodup.
+  - destruct (insert_nq src dst t (nqs st)). cbn [snd pres_agree]. apply eqb_reflx.
+  - cbn [snd pres_agree]. destruct (nq_find src dst (nqs st)); cbn; [apply N.eqb_refl|reflexivity].
+Qed.
+
+Fixpoint ptrace (tick : N) (st : pstate) (ops : list pop) : list pres :=
+  match ops with
+  | [] => []
+  | o :: t => snd (pstep tick st o) :: ptrace (tick + 1) (fst (pstep tick st o)) t
+  end.
+
+Lemma prun_from_trace ops : forall tick st rs,
+  snd (prun_from (tick, st, rs) ops) = rev (ptrace tick st ops) ++ rs.
+Proof.
+  unfold prun_from. induction ops as [|o t IH]; intros tick st rs; cbn [fold_left ptrace]; [reflexivity|].
+  unfold pexec at 2. destruct (pstep tick st o) as [st' r] eqn:E. cbn [fst snd].
+  rewrite IH. cbn [rev]. now rewrite <- app_assoc.
+Qed.
+
+Lemma presults_trace ops : presults ops = ptrace 0 {| segs := []; nqs := [] |} ops.
+Proof.
+  unfold presults, prun. rewrite prun_from_trace, app_nil_r. apply rev_involutive.
+Qed.
+
+Lemma phist_model ops : forall tick st,
+  pwf (segs st) ->
+  phist_ok tick st ops (ptrace tick st ops) = true /\
+  phist_agree tick st ops (ptrace tick st ops) = true.
+Proof.
+  induction ops as [|o t IH]; intros tick st W; cbn [phist_ok phist_agree ptrace]; [auto|].
+  pose proof (pres_ok_model tick st o W) as A. pose proof (pres_agree_model tick st o W) as B.
+  pose proof (pstep_wf tick st o W) as W'.
+  destruct (pstep tick st o) as [st' r]. cbn [fst snd] in *.
+  destruct (IH (tick + 1) st' W') as [I1 I2]. now rewrite A, B, I1, I2.
+Qed.
+
+(** histories *)
+Lemma prun_from_ind (P : pacc -> Prop) :
+  (forall a o, P a -> P (pexec a o)) -> forall ops a, P a -> P (prun_from a ops).
+Proof.
+  intros Hs. unfold prun_from. induction ops as [|o t IH]; intros a Ha; cbn [fold_left]; auto.
+Qed.
+
+Lemma pexec_st a o : pst (pexec a o) = fst (pstep (fst (fst a)) (pst a) o).
+Proof.
+  destruct a as [[tick st] rs]. unfold pexec, pst. cbn [fst snd]. now destruct (pstep tick st o).
+Qed.
+
+Lemma prun_snoc ops o : prun (ops ++ [o]) = pexec (prun ops) o.
+Proof. unfold prun, prun_from. now rewrite fold_left_app. Qed.
+
+Lemma prun_wf ops : pwf (segs (pst (prun ops))).
+Proof.
+  unfold prun. apply (prun_from_ind (fun a => pwf (segs (pst a)))).
+  - intros a o H. rewrite pexec_st. now apply pstep_wf.
+  - split; constructor.
+Qed.
+
+(** the next-query time of a pair along a history: the running maximum of what was inserted *)
+Definition nq_upd (src dst : ia) (acc : option N) (o : pop) : option N :=
+  match o with
+  | PInsertNQ s d t => if ia_eqb s src && ia_eqb d dst then omax acc t else acc
+  | _ => acc
+  end.
+
+Lemma pstep_nq tick st o src dst :
+  nq_find src dst (nqs (fst (pstep tick st o))) = nq_upd src dst (nq_find src dst (nqs st)) o.
+Proof.
+  destruct o as [s ty gs|p|now|p|s d t|s d]; cbn [pstep nq_upd]; try reflexivity.
+  - now destruct (insert_seg tick s ty gs (segs st)).
+  - pose proof (insert_nq_find s d t (nqs st) src dst) as F.
+    destruct (insert_nq s d t (nqs st)) as [l' b]. cbn [fst nqs] in *. rewrite F.
+    destruct (ia_eqb s src && ia_eqb d dst) eqn:M; [|reflexivity].
+    apply andb_true_iff in M as [A B]. apply ia_eqb_eq in A, B. now subst.
+Qed.
+
+Lemma prun_nq ops src dst :
+  nq_find src dst (nqs (pst (prun ops))) = fold_left (nq_upd src dst) ops None.
+Proof.
+  unfold prun.
+  assert (G : forall a, nq_find src dst (nqs (pst (prun_from a ops))) =
+                        fold_left (nq_upd src dst) ops (nq_find src dst (nqs (pst a)))).
+  { unfold prun_from. induction ops as [|o t IH]; intros a; cbn [fold_left]; [reflexivity|].
+    rewrite IH, pexec_st, pstep_nq. reflexivity. }
+  now rewrite G.
+Qed.
